@@ -3,7 +3,7 @@
 (* DiffXWriter (and of DiffXReader over the bytes it produced) are        *)
 (* replayed against the Writer specification, one TLC state per event.    *)
 (*                                                                        *)
-(* A trace is [id, cmap, chk, ev]; chk = [order, bytes, read] selects the   *)
+(* A trace is [id, cmap, chk, ev]; chk = [order, bytes, read, scope] selects *)
 (* clauses of the property being decided (C09 / C02,C04 / C01); events:   *)
 (*   init : constructor.  [k, enc, appended]                              *)
 (*   call : one writer call [k, c, accepted, appended, appendonly, twin]  *)
@@ -32,6 +32,34 @@ RecField(a, b) ==
   ELSE IF a.kind # b.kind THEN "kind" ELSE IF a.text # b.text THEN "text"
   ELSE IF a.raw # b.raw THEN "bytes" ELSE "metadata"
 
+(* ---- C04 clauses: which encoding did the real writer use? ----
+   Judged on the content bytes alone, through the header the real writer
+   wrote (its indent / line_endings), so that only the choice of encoding
+   is decided here.  Returns "" or the name of the failing clause. *)
+LeOf(opts) == IF Has(opts, K_le) THEN (IF Get(opts, K_le) = V_dos THEN "dos" ELSE "unix") ELSE "none"
+ScopeClause(st0, c, appended) ==
+  LET k == Find(appended, <<10>>, 1) IN
+  IF k = 0 THEN "scope-no-header-line"
+  ELSE LET hdr == ParseHeader(SubSeq(appended, 1, k - 1))
+           content == SubSeq(appended, k + 1, Len(appended)) IN
+    IF ~hdr.ok THEN "scope-header-unparsable"
+    ELSE IF Has(hdr.opts, K_enc) # c.enc.given THEN "encoding-option-presence"
+    ELSE IF c.enc.given /\ Get(hdr.opts, K_enc) # c.enc.name THEN "encoding-option-value"
+    ELSE IF c.op \in {"change", "file"} THEN ""
+    ELSE IF c.op = "diff" THEN
+      (IF c.enc.given THEN ""
+       ELSE IF content # AppendNL(c.raw, NL(AsciiC, LeOf(hdr.opts))) THEN "diff-inherited-an-encoding" ELSE "")
+    ELSE
+      LET e == IF c.enc.given THEN c.enc ELSE Nearest(st0.decl, OpenLevel(st0.prev))
+          ind == IF Has(hdr.opts, K_ind) /\ IsIntVal(Get(hdr.opts, K_ind)) /\ Small(Get(hdr.opts, K_ind))
+                 THEN IntOf(Get(hdr.opts, K_ind)) ELSE 0
+          r == Recover(content, e.codec, IF ind < 0 THEN 0 ELSE ind, LeOf(hdr.opts), TRUE) IN
+      IF ~r.ok THEN "content-not-in-nearest-declared-encoding"
+      ELSE IF c.op = "preamble" THEN (IF r.text # WithNL(c.text, r.le) THEN "preamble-text-not-in-nearest-declared-encoding" ELSE "")
+      ELSE LET jv == ParseJson(SubSeq(r.text, 1, Len(r.text) - 1)) IN
+           IF ~jv.ok \/ SortKeys(jv.v) # SortKeys(c.meta) THEN "metadata-not-in-nearest-declared-encoding" ELSE ""
+ScopeProj(r) == [id |-> r.id, kind |-> r.kind, text |-> r.text, raw |-> r.raw, meta |-> r.meta]
+
 (* result of checking one event: [ok, why, st] *)
 Check(tr, e) ==
   CASE e.k = "init" ->
@@ -46,15 +74,20 @@ Check(tr, e) ==
          ELSE IF tr.chk.order /\ ~r.accepted /\ e.appended # <<>> THEN [ok |-> FALSE, why |-> "rejected-call-wrote-bytes", st |-> r.st]
          ELSE IF tr.chk.order /\ r.accepted /\ e.appended # e.twin THEN [ok |-> FALSE, why |-> "continues-differently-after-rejected-call", st |-> r.st]
          ELSE IF tr.chk.bytes /\ e.appended # r.delta THEN [ok |-> FALSE, why |-> "bytes-differ", st |-> r.st]
+         ELSE IF tr.chk.scope /\ r.accepted /\ ScopeClause(st, e.c, e.appended) # "" THEN
+            [ok |-> FALSE, why |-> ScopeClause(st, e.c, e.appended), st |-> r.st]
          ELSE [ok |-> TRUE, why |-> "", st |-> r.st]
     [] e.k = "read" ->
-         LET d == FirstDiff(st.recs, e.recs, 1)
+         LET exp == IF tr.chk.read THEN st.recs ELSE [n \in 1..Len(st.recs) |-> ScopeProj(st.recs[n])]
+             got == IF tr.chk.read THEN e.recs ELSE [n \in 1..Len(e.recs) |-> ScopeProj(e.recs[n])]
+             d == FirstDiff(exp, got, 1)
              sc == IF e.selfcheck THEN ReadFile(st.out, tr.cmap) ELSE [status |-> "done", recs |-> st.recs] IN
          IF sc.status # "unspec" /\ (sc.status # "done" \/ sc.recs # st.recs) THEN [ok |-> FALSE, why |-> "SELFCHECK-spec-reader-vs-spec-writer", st |-> st]
          ELSE IF e.end # "done" THEN [ok |-> FALSE, why |-> "reader-did-not-complete:" \o e.end, st |-> st]
          ELSE IF d = 0 THEN [ok |-> TRUE, why |-> "", st |-> st]
-         ELSE IF d > Len(st.recs) THEN [ok |-> FALSE, why |-> "extra-record", st |-> st]
-         ELSE IF d > Len(e.recs) THEN [ok |-> FALSE, why |-> "missing-record", st |-> st]
+         ELSE IF d > Len(exp) THEN [ok |-> FALSE, why |-> "extra-record", st |-> st]
+         ELSE IF d > Len(got) THEN [ok |-> FALSE, why |-> "missing-record", st |-> st]
+         ELSE IF ~tr.chk.read THEN [ok |-> FALSE, why |-> "record-content-differs(decoded-with-wrong-encoding?)", st |-> st]
          ELSE [ok |-> FALSE, why |-> "record-" \o RecField(st.recs[d], e.recs[d]) \o "-differs", st |-> st]
 
 Init == i = 1 /\ j = 1 /\ st = W0
